@@ -590,7 +590,10 @@ def define_class(spec: dict, world: World):
         dfs = [f['n'] for f in spec['fields'] if 'df' in f]
 
         def __post_init__(self, _dfs=tuple(dfs)):
+            given = getattr(self, '__pane_set__', None) or ()
             for n in _dfs:
+                if n in given:
+                    continue        # a container that came with the input may be the caller's own object: hooks are pure
                 c = getattr(self, n, None)
                 if isinstance(c, list):
                     c.append(len(c))
